@@ -77,15 +77,17 @@ Record ck := mkCk {
   k_cancel_go : bool;          (* goroutine that will emit the cancel frame *)
   k_wu : bool;                 (* window-update callback past its done check, before its Send *)
   k_err : bool;                (* the receive loop met a frame for a stream that was never created *)
+  k_chend : bool;              (* the channel has ended (tunnelChannel.close ran: finished, every stream cancelled, table dropped) *)
   k_g : gc                     (* ghost: the grammar automaton run on everything emitted so far *)
 }.
 #[export] Instance eta_ck : Settable _ := settable! mkCk
-  <k_new; k_tab; k_done; k_stage; k_half; k_ctx; k_watched; k_sig; k_cancel_go; k_wu; k_err; k_g>.
-Definition k_init : ck := mkCk false false None F0 false false false false false false false GcStart.
+  <k_new; k_tab; k_done; k_stage; k_half; k_ctx; k_watched; k_sig; k_cancel_go; k_wu; k_err; k_chend; k_g>.
+Definition k_init : ck := mkCk false false None F0 false false false false false false false false GcStart.
 
 Inductive klbl :=
 | CNew | CSend | CHalf | CCtxEnd | CReadBad | CWuCheck | CWuSend
 | CWatch | CRemove | CPublish | CGoCancel
+| CChanEnd                             (* the tunnel ends at this end: Close, the tunnel context, a failure of the carrier *)
 | CLoop (f : sframe) (bad : bool).     (* the receive loop takes [f]; [bad]: the stream refuses it (overrun, nil) *)
 
 (* the compare-and-swap at the head of finishStream *)
@@ -103,7 +105,14 @@ Definition c_loop_busy (k : ck) : bool :=
 
 Definition kstep0 (k : ck) (l : klbl) : option (ck * list cframe) :=
   match l with
-  | CNew => if k_new k then None else Some (k <| k_new := true |> <| k_tab := true |>, [FNew])
+  | CNew => if k_new k then None
+            else if k_chend k then Some (k, [])                 (* "channel is closed": fails at once, nothing is sent *)
+            else Some (k <| k_new := true |> <| k_tab := true |>, [FNew])
+  | CChanEnd =>
+      (* close(): finished, every stream's context cancelled, the table dropped *)
+      if k_chend k then None
+      else if k_new k then Some (k <| k_chend := true |> <| k_ctx := true |> <| k_tab := false |>, [])
+      else Some (k <| k_chend := true |>, [])
   | CSend => if k_new k then
                if k_half k then Some (k, [])                    (* refused: nothing reaches the wire *)
                else Some (k, [FReq])
